@@ -352,6 +352,7 @@ structure Inv (R : Residue) (nodes1 : List Atom) (edges0 : List (Int × Int)) (c
   cover : ∀ r ∈ R.block.keys, r ∈ cur ∨ r ∈ dom st.mtch
   disj : ∀ r ∈ cur, r ∉ dom st.mtch
   domNd : (dom st.mtch).Nodup
+  domSub : ∀ r ∈ dom st.mtch, r ∈ R.block.keys
   keysNd : (st.nodes.map (·.key)).Nodup
   ranKeys : ∀ k ∈ ran st.mtch, k ∈ st.nodes.map (·.key)
   ranNd : (ran st.mtch).Nodup
@@ -390,7 +391,7 @@ theorem inv_step (R : Residue) (nodes1 : List Atom) (edges0 : List (Int × Int))
   refine
     { nd := h.nd.erase r
       curSub := fun x hx => h.curSub x (List.mem_of_mem_erase hx)
-      cover := ?_, disj := ?_, domNd := hdomNd, keysNd := ?_, ranKeys := ?_, ranNd := ?_, mext := ?_,
+      cover := ?_, disj := ?_, domNd := hdomNd, domSub := ?_, keysNd := ?_, ranKeys := ?_, ranNd := ?_, mext := ?_,
       next := ⟨new ++ [newAtom R.common ref k], by simp [hnew]⟩
       named := ?_, edgesNew := ?_, edgesOld := ?_
       edgesMono := fun e he => subset_foldl_addEdge _ (h.edgesMono e he) }
@@ -407,6 +408,12 @@ theorem inv_step (R : Residue) (nodes1 : List Atom) (edges0 : List (Int × Int))
     rw [dom_append]
     simp only [List.mem_append, not_or]
     exact ⟨h.disj x hx'.2, by simp [dom]; exact hx'.1⟩
+  · -- domSub
+    intro x hx
+    rw [dom_append] at hx
+    rcases List.mem_append.1 hx with hx | hx
+    · exact h.domSub x hx
+    · simp [dom] at hx; subst hx; exact h.curSub x hr
   · -- keysNd
     simp only [List.map_append, List.map_cons, List.map_nil]
     refine List.nodup_append.2 ⟨h.keysNd, by simp, ?_⟩
@@ -479,5 +486,237 @@ theorem inv_step (R : Residue) (nodes1 : List Atom) (edges0 : List (Int × Int))
       cases hl : (st.mtch ++ [(r, k)]).lookup q with
       | none => simp [hl] at hq
       | some kq => simp [hl] at hq; subst hq; exact hk1
+
+
+/-! ## 4. step 1 as a map over the atoms -/
+
+/-- what step 1 does to one atom: the updates of all block atoms matched on it, in block order -/
+def canonFn (M : Map) : List Atom → Atom → Atom
+  | [], a => a
+  | r :: rs, a =>
+    canonFn M rs (match M.lookup r.key with
+                  | some k => if a.key = k then canonAtom a r else a
+                  | none => a)
+
+theorem canonicalise_eq_map (b : Block) (M : Map) (nodes : List Atom) :
+    canonicalise b M nodes = nodes.map (canonFn M b.nodes) := by
+  unfold canonicalise
+  generalize b.nodes = rs
+  induction rs generalizing nodes with
+  | nil => simp [canonFn]
+  | cons r rs ih =>
+    simp only [List.foldl_cons]
+    rw [ih]
+    cases hl : M.lookup r.key with
+    | none => simp [canonFn, hl]
+    | some k =>
+      simp only [updateNode, List.map_map]
+      apply List.map_congr_left
+      intro a _
+      simp [canonFn, hl]
+
+theorem canonFn_key (M : Map) (rs : List Atom) (a : Atom) : (canonFn M rs a).key = a.key := by
+  induction rs generalizing a with
+  | nil => rfl
+  | cons r rs ih =>
+    simp only [canonFn]
+    rw [ih]
+    cases M.lookup r.key with
+    | none => rfl
+    | some k => simp only []; split <;> rfl
+
+theorem canonicalise_keys (b : Block) (M : Map) (nodes : List Atom) :
+    (canonicalise b M nodes).map (·.key) = nodes.map (·.key) := by
+  rw [canonicalise_eq_map, List.map_map]
+  apply List.map_congr_left
+  intro a _
+  exact canonFn_key M b.nodes a
+
+/-- an atom on which no block atom is matched is left alone -/
+theorem canonFn_untouched (M : Map) (rs : List Atom) (a : Atom)
+    (h : ∀ r ∈ rs, M.lookup r.key ≠ some a.key) : canonFn M rs a = a := by
+  induction rs generalizing a with
+  | nil => rfl
+  | cons r rs ih =>
+    simp only [canonFn]
+    have h0 := h r (by simp)
+    have : (match M.lookup r.key with
+            | some k => if a.key = k then canonAtom a r else a
+            | none => a) = a := by
+      cases hl : M.lookup r.key with
+      | none => rfl
+      | some k =>
+        simp only []
+        rw [if_neg]
+        intro e; apply h0; rw [hl, e]
+    rw [this]
+    exact ih a (fun r' hr' => h r' (List.mem_cons_of_mem _ hr'))
+
+theorem canonFn_not_ran (M : Map) (rs : List Atom) (a : Atom) (h : a.key ∉ ran M) : canonFn M rs a = a := by
+  apply canonFn_untouched
+  intro r _ hl
+  exact h (mem_ran_of_mem (mem_of_lookup hl))
+
+/-- the atom matched by exactly one block atom `r0` gets `r0`'s name and element -/
+theorem canonFn_named (M : Map) (rs : List Atom) (a : Atom) (r0 : Atom) (h0 : r0 ∈ rs)
+    (hnd : (rs.map (·.key)).Nodup) (hl0 : M.lookup r0.key = some a.key)
+    (hinj : ∀ r ∈ rs, M.lookup r.key = some a.key → r.key = r0.key) :
+    (canonFn M rs a).name = r0.name ∧ (canonFn M rs a).elem = r0.elem ∧ (canonFn M rs a).ptm = r0.ptm.orElse fun _ => a.ptm := by
+  induction rs generalizing a with
+  | nil => cases h0
+  | cons r rs ih =>
+    simp only [canonFn]
+    have hnd' : r.key ∉ rs.map (·.key) ∧ (rs.map (·.key)).Nodup := List.nodup_cons.1 hnd
+    by_cases hr : r.key = r0.key
+    · -- this is r0 (keys are distinct)
+      have hrr : r = r0 := by
+        rcases List.mem_cons.1 h0 with e | h0'
+        · exact e.symm
+        · exfalso; apply hnd'.1; rw [hr]; exact List.mem_map.2 ⟨r0, h0', rfl⟩
+      subst hrr
+      rw [hl0]
+      simp only [if_true]
+      rw [canonFn_untouched]
+      · exact ⟨rfl, rfl, rfl⟩
+      · intro r' hr' hl'
+        have hk : (canonAtom a r).key = a.key := rfl
+        rw [hk] at hl'
+        have := hinj r' (List.mem_cons_of_mem _ hr') hl'
+        apply hnd'.1; rw [← this]; exact List.mem_map.2 ⟨r', hr', rfl⟩
+    · have h0' : r0 ∈ rs := by
+        rcases List.mem_cons.1 h0 with e | h0'
+        · exact absurd (by rw [e]) hr
+        · exact h0'
+      have hstay : (match M.lookup r.key with
+            | some k => if a.key = k then canonAtom a r else a
+            | none => a) = a := by
+        cases hl : M.lookup r.key with
+        | none => rfl
+        | some k =>
+          simp only []
+          rw [if_neg]
+          intro e; apply hr; apply hinj r (by simp); rw [hl, e]
+      rw [hstay]
+      exact ih a h0' hnd'.2 hl0 (fun r' hr' => hinj r' (List.mem_cons_of_mem _ hr'))
+
+theorem fst_eq_of_snd_nodup {M : Map} (h : (ran M).Nodup) {r r' k : Int} (h1 : (r, k) ∈ M) (h2 : (r', k) ∈ M) :
+    r = r' := by
+  unfold ran at h
+  induction M with
+  | nil => cases h1
+  | cons p M ih =>
+    have hn : p.2 ∉ M.map Prod.snd ∧ (M.map Prod.snd).Nodup := List.nodup_cons.1 h
+    rcases List.mem_cons.1 h1 with e1 | h1'
+    · rcases List.mem_cons.1 h2 with e2 | h2'
+      · have := e1.trans e2.symm; exact congrArg Prod.fst this
+      · exfalso; apply hn.1; rw [← e1]; exact List.mem_map.2 ⟨(r', k), h2', rfl⟩
+    · rcases List.mem_cons.1 h2 with e2 | h2'
+      · exfalso; apply hn.1; rw [← e2]; exact List.mem_map.2 ⟨(r, k), h1', rfl⟩
+      · exact ih hn.2 h1' h2'
+
+
+/-! ## 5. the invariant holds at the start and at the end -/
+
+/-- what `make_reference` guarantees about the reference graph (all decidable) -/
+def WF (m : Mol) (R : Residue) : Prop :=
+  R.block.keys.Nodup ∧ m.keys.Nodup ∧ (dom R.mtch).Nodup ∧ (ran R.mtch).Nodup
+  ∧ (∀ r ∈ dom R.mtch, r ∈ R.block.keys) ∧ (∀ k ∈ ran R.mtch, k ∈ R.found) ∧ (∀ k ∈ R.found, k ∈ m.keys)
+
+instance (m : Mol) (R : Residue) : Decidable (WF m R) := by unfold WF; infer_instance
+
+theorem mem_missing0 (b : Block) (M : Map) (r : Int) :
+    r ∈ missing0 b M ↔ ∃ a ∈ b.nodes, a.key = r ∧ M.lookup a.key = none := by
+  unfold missing0 missingAtoms
+  simp only [List.mem_map, List.mem_filter, Option.isNone_iff_eq_none]
+  constructor
+  · rintro ⟨a, ⟨ha, hl⟩, hk⟩; exact ⟨a, ha, hk, hl⟩
+  · rintro ⟨a, ha, hk, hl⟩; exact ⟨a, ⟨ha, hl⟩, hk⟩
+
+theorem inj_of_nodup_map {α β} {f : α → β} {l : List α} (h : (l.map f).Nodup) {a b : α}
+    (ha : a ∈ l) (hb : b ∈ l) (e : f a = f b) : a = b := by
+  induction l with
+  | nil => cases ha
+  | cons x l ih =>
+    have hn : f x ∉ l.map f ∧ (l.map f).Nodup := List.nodup_cons.1 h
+    rcases List.mem_cons.1 ha with e1 | ha'
+    · rcases List.mem_cons.1 hb with e2 | hb'
+      · rw [e1, e2]
+      · exfalso; apply hn.1; rw [← e1, e]; exact List.mem_map.2 ⟨b, hb', rfl⟩
+    · rcases List.mem_cons.1 hb with e2 | hb'
+      · exfalso; apply hn.1; rw [← e2, ← e]; exact List.mem_map.2 ⟨a, ha', rfl⟩
+      · exact ih hn.2 ha' hb'
+
+theorem nameOf_of_mem {b : Block} (hb : b.keys.Nodup) {ref : Atom} (h : ref ∈ b.nodes) :
+    nameOf b ref.key = ref.name ∧ elemOf b ref.key = ref.elem := by
+  obtain ⟨ref', hfind, hkey, hmem⟩ := find_of_mem_keys (b := b) (r := ref.key) (List.mem_map.2 ⟨ref, h, rfl⟩)
+  have : ref' = ref := by
+    unfold Block.keys at hb
+    exact inj_of_nodup_map hb hmem h hkey
+  subst this
+  simp only [nameOf, elemOf]; rw [hfind]; exact ⟨rfl, rfl⟩
+
+theorem inv_start (m : Mol) (R : Residue) (h : WF m R) :
+    Inv R (canonicalise R.block R.mtch m.nodes) m.edges (missing0 R.block R.mtch) (startState m R) := by
+  obtain ⟨hb, hm, hdn, hrn, hds, hrs, hfs⟩ := h
+  have hkeys := canonicalise_keys R.block R.mtch m.nodes
+  refine
+    { nd := ?_, curSub := ?_, cover := ?_, disj := ?_, domNd := hdn, domSub := hds, keysNd := ?_, ranKeys := ?_,
+      ranNd := hrn, mext := ⟨[], by simp [startState], by simp⟩, next := ⟨[], by simp [startState]⟩,
+      named := ?_, edgesNew := ?_, edgesOld := fun e he => Or.inl he, edgesMono := fun e he => he }
+  · unfold missing0 missingAtoms
+    exact List.Nodup.sublist (List.Sublist.map _ List.filter_sublist) hb
+  · intro r hr
+    obtain ⟨a, ha, hk, _⟩ := (mem_missing0 _ _ _).1 hr
+    exact List.mem_map.2 ⟨a, ha, hk⟩
+  · intro r hr
+    obtain ⟨a, ha, hk⟩ := List.mem_map.1 hr
+    cases hl : R.mtch.lookup a.key with
+    | none => left; exact (mem_missing0 _ _ _).2 ⟨a, ha, hk, hl⟩
+    | some k =>
+      right; show r ∈ dom R.mtch
+      rw [← hk]; exact mem_dom_of_mem (mem_of_lookup hl)
+  · intro r hr
+    obtain ⟨a, ha, hk, hl⟩ := (mem_missing0 _ _ _).1 hr
+    show r ∉ dom R.mtch
+    rw [← hk]; exact (lookup_none_iff _ _).1 hl
+  · show ((canonicalise R.block R.mtch m.nodes).map (·.key)).Nodup
+    rw [hkeys]; exact hm
+  · intro k hk
+    show k ∈ (canonicalise R.block R.mtch m.nodes).map (·.key)
+    rw [hkeys]; exact hfs k (hrs k hk)
+  · intro p hp
+    have hp' : p ∈ R.mtch := hp
+    obtain ⟨ref, _, hkey, hmem⟩ := find_of_mem_keys (hds p.1 (mem_dom_of_mem hp'))
+    have hk : p.2 ∈ m.keys := hfs _ (hrs _ (mem_ran_of_mem hp'))
+    obtain ⟨a0, ha0, hka0⟩ := List.mem_map.1 hk
+    have hl0 : R.mtch.lookup ref.key = some a0.key := by
+      rw [hkey, hka0]; exact Iso.lookup_of_mem hdn hp'
+    have hnamed := canonFn_named R.mtch R.block.nodes a0 ref hmem hb hl0 (by
+      intro r' _ hl'
+      have h1 := mem_of_lookup hl'
+      have h2 := mem_of_lookup hl0
+      exact fst_eq_of_snd_nodup hrn h1 h2)
+    refine ⟨canonFn R.mtch R.block.nodes a0, ?_, ?_, ?_, ?_⟩
+    · show _ ∈ canonicalise R.block R.mtch m.nodes
+      rw [canonicalise_eq_map]; exact List.mem_map.2 ⟨a0, ha0, rfl⟩
+    · rw [canonFn_key]; exact hka0
+    · rw [hnamed.1, ← hkey]; exact (nameOf_of_mem hb hmem).1.symm
+    · rw [hnamed.2.1, ← hkey]; exact (nameOf_of_mem hb hmem).2.symm
+  · intro e _ k1 k2 h1 h2 hnot
+    rcases hnot with hn | hn
+    · exact absurd h1 hn
+    · exact absurd h2 hn
+
+theorem inv_final (m : Mol) (R : Residue) (h : WF m R) :
+    Inv R (canonicalise R.block R.mtch m.nodes) m.edges (rebuilt m R).1 (rebuilt m R).2 := by
+  unfold rebuilt
+  exact rebuild_induct R (Inv R _ _) (fun _ _ hi => hi.nd) (fun cur st r hi hr _ => inv_step R _ _ cur st r hi hr)
+    _ _ _ (inv_start m R h)
+
+/-- at the end every atom still missing has only missing neighbours -/
+theorem final_stuck (m : Mol) (R : Residue) (h : WF m R) :
+    ∀ r ∈ (rebuilt m R).1, stuck R.block.edges (rebuilt m R).1 r = true := by
+  unfold rebuilt
+  exact rebuild_end R _ _ _ (inv_start m R h).nd (Nat.lt_succ_self _)
 
 end C04
